@@ -275,8 +275,30 @@ def _layout_cases():
                            layout=dict(y=ylay, w=(ylay if wlay == "same" else None), x=("neg" if k % 3 == 0 else "strided" if k % 3 == 1 else None)))
 
 
+def _scale_cases():
+    """Domains of tiny absolute length (2^-20, 2^-30, [2e-7, 5e-7]) and unit-length domains at offset ±2^20: fit and predict
+    (points next to the knots) judged against the exact model — absolute thresholds in the basis code would show up."""
+    rng = Rng("C05-scale-block")
+    doms = [(Fraction(0), Fraction(1, 2 ** 20)), (F(2e-7), F(5e-7)), (Fraction(0), Fraction(1, 2 ** 30)), (Fraction(2 ** 20), Fraction(2 ** 20 + 1)),
+            (Fraction(-2 ** 20 - 2), Fraction(-2 ** 20))]
+    for k, (a, b) in enumerate(doms):
+        p, nseg = [1, 3, 2, 3, 2][k], [4, 5, 4, 3, 5][k]
+        h = (b - a) / nseg
+        pts = {a, b}
+        for j in range(nseg + 1):
+            for off in (Fraction(0), -h / 64, h / 64, h / 3):
+                q = Fraction(float(a + j * h + off))
+                if a <= q <= b:
+                    pts.add(q)
+        x = sorted(pts)
+        dims = [dict(nseg=nseg, p=p, lam=rs(Fraction(1, 4)), x=[rs(v) for v in x], wide=False, dmin=rs(a), dmax=rs(b))]
+        yield dict(kind="fit1", d=1, ord=2 if p > 1 else 1, dims=dims, y=[rs(v) for v in rng.dyadics(len(x), -4, 4, 2)], w=None, wk="none", yk="rand",
+                   int_opts=False, history=False, default_penalty=False, a="1", c="1", sub=4 * k + 1, wscale="1/4", scale_case=True)
+
+
 def gen_cases(rng: Rng, tier):
     _TIER[0] = tier
+    yield from _scale_cases()
     yield from _layout_cases()
     yield from _dtype_cases()
     yield from _default_cases()
@@ -755,6 +777,15 @@ def _backward_ok(model):
     return all(abs(a) <= Fraction(1, 10 ** 9) * b + Fraction(1, 10 ** 290) for a, b in zip(r, s))
 
 
+def _domcond(case):
+    """Rounding of the truncated-power basis grows with p·max|domain|/h (calibrated for C18: 64·eps·(1 + p·max|domain|/h)·Σ|terms|)."""
+    c = 1.0
+    for dd in case["dims"]:
+        a, b = F(dd["dmin"]), F(dd["dmax"])
+        c = max(c, 1 + dd["p"] * float(max(abs(a), abs(b)) * dd["nseg"] / (b - a)))
+    return 64 * 2.0 ** -52 * c * 16
+
+
 def _lowprec(case):
     """float32 grids are legitimately processed in single precision (measured on the unchanged tree: 1.5e-6 relative)."""
     return 5e-4 if (case.get("dtypes") or {}).get("x") == "float32" else 0.0
@@ -827,7 +858,7 @@ def compare(case, impl, model):
         ds.append(f"predict: {len(impl['pred_sub'])} values vs model {len(pq)}")
     else:
         for i, (f, q) in enumerate(zip(impl["pred_sub"], pq)):
-            if not math.isfinite(f) or abs(Fraction(f) - q) > Fraction(max(1e-9, _lowprec(case))) * Fraction(bscale):
+            if not math.isfinite(f) or abs(Fraction(f) - q) > Fraction(max(1e-9, _lowprec(case), _domcond(case))) * Fraction(bscale):
                 ds.append(f"predict[{i}]: impl {f!r} vs exact {float(q)!r}")
                 break
     return ds
@@ -969,6 +1000,8 @@ def classify(case, impl):
     tags.append("mode:" + ("exact" if M <= EXACT_MAX[_TIER[0]] else "residual"))
     if any(dd["wide"] for dd in case["dims"]):
         tags.append("explicit-domain")
+    if case.get("scale_case"):
+        tags.append("domain-scale:tiny-or-offset(structured)")
     if case.get("layout"):
         tags.append("layout:y=" + str(case["layout"].get("y")) + ",x=" + str(case["layout"].get("x")))
     if case.get("use_defaults"):
